@@ -41,8 +41,15 @@ MulOK(e) ==
   /\ e.enc = EncodePointP(O, Certs(e))
   /\ Has(e, "argsok") => e.argsok          \* the caller's argument slices are as they were
 
+\* agreement sweep: every single-scalar entry point returned the encoding of [s]P (computed once here)
+AgreeOK(e) ==
+  LET P == PtOf(e.pts[1])  s == In255(e.s)
+      want == EncodePoint(ExtMulBits(NatBits(s, BitLen(s)), P))
+  IN ExtValid(P) /\ Len(e.outs) >= 7 /\ \A i \in 1..Len(e.outs) : e.outs[i] = want
+
 EventOK(e) ==
   CASE e.op = "grp" -> GrpOK(e)
+    [] e.op = "agree" -> AgreeOK(e)
     [] e.op = "mul" -> MulOK(e)
     [] OTHER -> FALSE
 
